@@ -20,7 +20,7 @@
         // C34: wait = time left until the scheduled start, but at least min-refresh (refresh when unset)
         exists|t2: int| sys_clock_read(t2)
             && res.ns@ == wait_of(self.next_update_start.t@, t2, self.refresh.ns@, min_refresh_of(self)),
-//@ closure 1
+//@ closure unwrap_or_else 1 optional
 |_e: SystemTimeError| -> (r: Duration) ensures r.ns@ == 0
 //@ fn PayloadHistory::update_wait
 //@ spec
